@@ -253,6 +253,22 @@ m("ok-builder-with-exact-capacity", "none", "src/packet.rs",
 m("ok-usart-frame-buffer-with-capacity", "none", "src/interface/usart.rs",
   "                        let mut frame = vec![];", "                        let mut frame = alloc::vec::Vec::with_capacity(expected_length_hint());", )
 M.pop()  # (placeholder variant needs a helper; not used)
+m("ok-usart-per-poll-frame-budget", "none", "src/interface/usart.rs",
+  "                                self.packet_builder = None;\n\n                                return Ok(packet);\n                            }\n                        }\n",
+  "                                self.packet_builder = None;\n\n                                return Ok(packet);\n                            }\n                        }\n\n                        frames_this_poll += 1;\n\n                        if frames_this_poll >= 32 {\n                            return Err(InterfaceError::NoPacketReceived);\n                        }\n")
+M[-1]["extra"] = [("    fn try_get_packet(&mut self) -> Result<Packet, InterfaceError> {\n        loop {\n            match self.serial.read() {", "    fn try_get_packet(&mut self) -> Result<Packet, InterfaceError> {\n        let mut frames_this_poll = 0;\n\n        loop {\n            match self.serial.read() {")]
+m("ok-can-overrun-reported-as-error", "none", "src/interface/can.rs",
+  "                Err(_) => break,", "                Err(nb::Error::Other(_)) => {\n                    return Err(InterfaceError::CanError(CanError::BufferOverrun));\n                }\n                Err(_) => break,")
+m("ok-can-start-frame-restarts-packet", "none", "src/interface/can.rs",
+  "                    if let Some(ref mut packet_builder) = self.packet_builder {\n                        if let Err(err) = packet_builder.add_frame(ross_frame) {",
+  "                    if self.packet_builder.is_some() && ross_frame.start_frame_flag {\n                        // a start frame always begins a new packet; the stale one is dropped\n                        self.packet_builder = PacketBuilder::new(ross_frame).ok();\n                    } else if let Some(ref mut packet_builder) = self.packet_builder {\n                        if let Err(err) = packet_builder.add_frame(ross_frame) {")
+m("ok-usart-sender-flushes-at-end", "none", "src/interface/usart.rs",
+  "                let _ = block!(self.serial.write(*byte));\n            }\n        }\n\n        Ok(())",
+  "                let _ = block!(self.serial.write(*byte));\n            }\n        }\n\n        let _ = block!(self.serial.flush());\n\n        Ok(())")
+m("ok-handler-ids-never-reused", "none", "src/protocol.rs",
+  "        let id = self.get_next_handler_id();\n", "        let id = self.next_id;\n        self.next_id += 1;\n")
+M[-1]["extra"] = [("    interface: I,\n    #[cfg(not(feature = \"send\"))]\n    handlers:", "    interface: I,\n    next_id: u32,\n    #[cfg(not(feature = \"send\"))]\n    handlers:"),
+                  ("            interface,\n            handlers: BTreeMap::new(),", "            interface,\n            next_id: 0,\n            handlers: BTreeMap::new(),")]
 m("ok-tick-matches-broadcast-first", "none", "src/protocol.rs",
   "                if packet.device_address == self.device_address\n                    || packet.device_address == BROADCAST_ADDRESS",
   "                if packet.device_address == BROADCAST_ADDRESS\n                    || packet.device_address == self.device_address")
@@ -292,7 +308,12 @@ def main():
                 print("%-55s SKIP: pattern occurs %d times" % (x["name"], src.count(x["old"])), flush=True)
                 results.append(dict(name=x["name"], prop=x["prop"], status="pattern-mismatch"))
                 continue
-            open(path, "w").write(src.replace(x["old"], x["new"]))
+            src = src.replace(x["old"], x["new"])
+            for (eo, en) in x.get("extra", []):
+                if src.count(eo) != 1:
+                    print("%-55s SKIP: extra pattern occurs %d times" % (x["name"], src.count(eo)), flush=True)
+                src = src.replace(eo, en)
+            open(path, "w").write(src)
             rc1, o1 = sh(["cargo", "test", "--offline", "--lib", "-q"], cwd=wt, env=env)
             rc2, o2 = sh(["cargo", "test", "--offline", "--features", "std", "--lib", "-q"], cwd=wt, env=env)
             if rc1 != 0 or rc2 != 0:
